@@ -641,13 +641,13 @@ def replay_body(sh: Shadow, i: int, x: dict[str, Any], c: int, b: dict[str, Any]
         return "ok"
     if b["op"] == "addf":
         return "runtimeError"
-    if b["op"] == "getnw":
+    if b["op"] in ("getnw", "get"):
         key = (b["ty"], b["name"])
         v = visible(x, key)
         if v is not None:
             return f"val {v}"
         if key in x["facs"]:
-            if x["facs"][key]["async"]:
+            if x["facs"][key]["async"] and b["op"] == "getnw":
                 return "asyncError"
             val, e = generation(sh, i, x, c, x["facs"][key])
             evs.extend(e)
